@@ -47,7 +47,7 @@ def make_inputs(rng, spec):
         name = rng.choice(names)
         sspec = spec["sub"]["choices"][name]
         sobj, sargv = make_inputs(rng, sspec)
-        obj["subcommand"] = name
+        obj[spec["sub"].get("dest", "subcommand")] = name
         obj[name] = sobj
         argv = argv + [name] + sargv
     return obj, argv
